@@ -6,7 +6,9 @@
     overlaps an annotated line, for all range geometries;
 (c) real `processing._do_rewrite` returns its input object when the (symbolic, concretised at the slice)
     range overlaps an annotated line, and `processing.fix` leaves annotated lines verbatim;
-(d) skip_file inputs come back as the identical object (reachability witness only);
+(d) files with the documented skip_file comment (13 bodies: untidy whitespace, tabs, blank-line runs, CRLF, no final
+    newline, rewritable code, invalid Python, fragments x 4 comment positions) come back byte for byte from
+    format_code (5 option sets), format_file (file on disk) and the stdin mode (concrete witness, not symbolic);
 (e) pool obligation: for skeletons of the shared pool with one physical line annotated, on every path of
     the symbolic-literal run of each rule and of format_code the annotated line occurs verbatim in the output."""
 from __future__ import annotations
@@ -27,7 +29,7 @@ ASSUMPTIONS = [
     "(e) has a degenerate symbolic dimension (literals of the program rarely influence which lines are rewritten); "
     "evidence reports branched_on per obligation",
 ]
-OUTSIDE = ["stdin mode of the CLI", "annotated lines inside multi-line string literals for (e)"]
+OUTSIDE = ["annotated lines inside multi-line string literals for (e)"]
 
 LAYOUTS = {
     "basic": "a = 1\nb = 2  # pyrefact: ignore\n\nc = 3 #pyrefact:skip_file\nd = 4",
@@ -105,19 +107,97 @@ def ob_sched(cfg):
     return d
 
 
-def ob_skip_file():
+SKIP_BODIES = {
+    "tidy": "x = 1\ny = 2\n",
+    "trailing-blanks": "x = 1   \ny = 2\t\n",
+    "tab-indent": "def f(a):\n\treturn a\n",
+    "blank-line-runs": "x = 1\n\n\n\n\n\ny = 2\n",
+    "blank-lines-in-block": "def f(a):\n    b = a\n\n\n\n    return b\n",
+    "blank-lines-at-eof": "x = 1\n\n\n\n",
+    "no-final-newline": "x = 1\ny = 2",
+    "crlf": "x = 1\r\ny = 2\r\n",
+    "rewritable": "import os\nimport sys\n\n\ndef f(camelCase):\n    unusedVar = 1\n    if camelCase == None:\n        return True\n    else:\n        return False\n",
+    "long-line": "value = [1000000001, 1000000002, 1000000003, 1000000004, 1000000005, 1000000006, 1000000007, 1000000008, 1000000009]\n",
+    "invalid-python": "def f(:\n    pass   \n",
+    "indented-fragment": "    x = 1   \n    y = 2\n",
+    "only-comment": "",
+}
+SKIP_POSITIONS = ("first-line", "last-line", "after-code", "in-block")
+
+
+def _skip_inputs():
+    for name, body in SKIP_BODIES.items():
+        nl = "\r\n" if "\r\n" in body else "\n"
+        for pos in SKIP_POSITIONS:
+            if pos == "first-line":
+                text = "# pyrefact: skip_file" + nl + body
+            elif pos == "last-line":
+                text = body + ("" if body.endswith(("\n", "")) and (body.endswith("\n") or not body) else nl) + "# pyrefact: skip_file" + (nl if body.endswith("\n") else "")
+            elif pos == "after-code":
+                lines = body.split(nl)
+                if not lines[0].strip():
+                    continue
+                lines[0] = lines[0] + "  # pyrefact: skip_file"
+                text = nl.join(lines)
+            else:
+                text = body + ("" if body.endswith("\n") or not body else nl) + "def g():" + nl + "    # pyrefact: skip_file" + nl + "    return 1" + nl
+            yield "%s/%s" % (name, pos), text
+
+
+def _skip_file_failures():
+    """Files with the documented skip comment through the library, file and stdin entry points (concrete)."""
+    import contextlib
+    import importlib
+    import io
+    import os
+    import sys
+    import tempfile
+
     import pyrefact
 
-    bad = []
-    n = 0
-    for name, src in LAYOUTS.items():
-        if "skip_file" in src and "# pyrefact: skip_file" in src:
+    main = importlib.import_module("pyrefact.main")
+    bad, n = [], 0
+    with tempfile.TemporaryDirectory() as d:
+        for name, src in _skip_inputs():
+            for kw in ({}, {"safe": True}, {"keep_imports": True}, {"preserve": frozenset({"f"})}, {"max_line_length": 60}):
+                n += 1
+                try:
+                    out = pyrefact.format_code(src, **kw)
+                except Exception as e:  # noqa: BLE001
+                    out = "raised %s" % type(e).__name__
+                if out != src:
+                    bad.append("format_code(%s)/%s" % (",".join(kw) or "defaults", name))
+            path = os.path.join(d, "m.py")
+            with open(path, "w", encoding="utf-8", newline="") as f:
+                f.write(src)
             n += 1
-            out = pyrefact.format_code(src)
-            if out is not src and out != src:
-                bad.append(name)
+            try:
+                with contextlib.redirect_stdout(io.StringIO()):
+                    main.format_file(path)
+            except Exception as e:  # noqa: BLE001
+                bad.append("format_file raised %s/%s" % (type(e).__name__, name))
+            with open(path, "r", encoding="utf-8", newline="") as f:
+                if f.read() != src:
+                    bad.append("format_file/%s" % name)
+            n += 1
+            stdin, stdout = sys.stdin, sys.stdout
+            try:
+                sys.stdin, sys.stdout = io.StringIO(src, newline=""), io.StringIO(newline="")
+                main.main(["--from-stdin"])
+                echoed = sys.stdout.getvalue()
+            except BaseException as e:  # noqa: BLE001 - SystemExit included
+                echoed = "raised %s" % type(e).__name__
+            finally:
+                sys.stdin, sys.stdout = stdin, stdout
+            if echoed != src + "\n":
+                bad.append("stdin/%s" % name)
+    return bad, n
+
+
+def ob_skip_file():
+    bad, n = _skip_file_failures()
     return {"status": "refuted" if bad else "confirmed", "paths": n, "checks": 0, "solver_s": 0.0, "claims": n,
-            "cexs": [{"model": {}, "info": {"layouts": bad}}] if bad else [], "allow_vacuous": True}
+            "cexs": [{"model": {}, "info": {"failures": bad[:20]}}] if bad else []}
 
 
 def ob_pool(skeleton, transform, line_index):
@@ -257,8 +337,8 @@ def replay(case):
 
         return c10.replay(case)
     if k == "skip_file":
-        bad = [n for n, s in LAYOUTS.items() if "# pyrefact: skip_file" in s and pyrefact.format_code(s) != s]
-        return {"reproduced": bool(bad), "detail": "format_code changed skip_file inputs: %s" % bad}
+        bad, _n = _skip_file_failures()
+        return {"reproduced": bool(bad), "detail": "skip_file inputs not returned byte for byte: %s" % bad[:12]}
     from vk import pool, symtv
 
     sk = pool.Skeleton.from_json(case["skeleton"])
